@@ -28,7 +28,8 @@ def run(tier, seed, verdict):
             owns=lambda f: f.get("owner", "C17") == "C17",
             rule="crash points = every Flush / Close followed by Kill that TLC's session model places in the write "
                  "histories of the entity-graph model (all entity kinds, links, deletes, attribute and data writes; "
-                 "sessions reopened read-write and read-only in between) and after every history of the array model "
+                 "sessions reopened read-write and read-only in between; a second File object opened on the same path "
+                 "by the writing process, the older one closed, then the kill) and after every history of the array model "
                  "(appends along any axis, resizes, region writes; 12 element types; file x block x array compression); "
                  "the writer is a forked process SIGKILLed right after flush()/close() returned; the parent opens the "
                  "file read-only and read-write and compares the complete projection with the one recorded at the "
@@ -36,8 +37,8 @@ def run(tier, seed, verdict):
             assumptions=["kills with unflushed writes are explored by the model (mode 'dead') but nothing is judged after them",
                          "the kill is delivered by the process to itself immediately after flush()/close() returns",
                          "power loss / OS crash (page cache not written) is not modelled: the property is about process kill"],
-            tlc_props=["KillAfterFlushLosesNothing", "OpenShowsDisk", "DiskMonotone", "TypeOK"],
-            need=("kills", "verifications", "array_kills"),
+            tlc_props=["KillAfterFlushLosesNothing", "CloseMakesDurable", "OpenShowsDisk", "DiskMonotone", "TypeOK"],
+            need=("kills", "verifications", "array_kills", "second_closes"),
             extra={"session_schedules": sum(r.nschedules for r in sruns)})
     return level, cov, assumptions
 
